@@ -245,6 +245,10 @@ func runOne(cfg *Config, prefix []int, visited map[uint64]int, body func(*Ctx), 
 	return res
 }
 
+// maxStates caps the state cache of one process (about 50 bytes per entry); reaching it ends
+// the exploration as incomplete rather than exhausting memory.
+const maxStates = 12_000_000
+
 // Explore enumerates every execution of body within cfg.Bound deviations.
 func Explore(cfg Config, body func(*Ctx)) *Result {
 	start := time.Now()
@@ -265,7 +269,7 @@ func Explore(cfg Config, body func(*Ctx)) *Result {
 		if stop {
 			return
 		}
-		if (!cfg.Deadline.IsZero() && time.Now().After(cfg.Deadline)) || (cfg.MaxExecs > 0 && res.Execs >= cfg.MaxExecs) {
+		if (!cfg.Deadline.IsZero() && time.Now().After(cfg.Deadline)) || (cfg.MaxExecs > 0 && res.Execs >= cfg.MaxExecs) || len(visited) > maxStates {
 			res.Complete = false
 			stop = true
 			return
